@@ -67,6 +67,9 @@ class Run(object):
         self.p_falsy = 0.06
         self.p_mgr_suspend = 0.75
         self.nmgr = 0
+        # managers whose exit method is an alias of a differently named function; the documented
+        # limitation of the *referents* analysis excludes them, so C20's referents leg switches it off
+        self.alias_exit = True
 
     # ---- decisions -------------------------------------------------------------------
     def D(self):
@@ -298,6 +301,26 @@ class Run(object):
                     run.log.append(("xe", s))
                 return s._swallow(e)
 
+        class SX(Base):
+            """the exit method was defined under another name (`__exit__ = close`): its frame's
+            code name is not '__exit__'"""
+            is_async = False
+            __enter__ = S.__enter__
+
+            def close(s, *e):
+                return S.__exit__(s, *e)
+
+            __exit__ = close
+
+        class AX(Base):
+            is_async = True
+            __aenter__ = A.__aenter__
+
+            async def aclose(s, *e):
+                return await A.__aexit__(s, *e)
+
+            __aexit__ = aclose
+
         class SF(S):
             """falsy manager"""
 
@@ -310,6 +333,8 @@ class Run(object):
 
         def mkS(k, shape=None, dropret=False):
             cls = SF if run.rng.random() < run.p_falsy else S
+            if run.alias_exit and run.rng.random() < 0.15:
+                cls = SX
             m = cls.__new__(cls)
             Base.__init__(m, k, shape)
             m.dropret = dropret
@@ -319,6 +344,8 @@ class Run(object):
 
         def mkA(k, shape=None, dropret=False):
             cls = AF if run.rng.random() < run.p_falsy else A
+            if run.alias_exit and run.rng.random() < 0.15:
+                cls = AX
             m = cls.__new__(cls)
             Base.__init__(m, k, shape)
             m.dropret = dropret
